@@ -182,6 +182,8 @@ class PoolRun(object):
             res = "true" if pool.join() else "false"
         elif op[0] == "joint":
             res = "true" if pool.join(5) else "false"
+        elif op[0] == "clear":
+            pool.clear()
         elif op[0] == "enq":
             self.futures[op[1]] = pool.enqueue(self.task, op[1])
         elif op[0] == "release":
@@ -195,7 +197,7 @@ class PoolRun(object):
     def avail_ops(self, c):
         ops = [["join"], ["joint"]]
         if c == 1:
-            ops += [["start"], ["stop"]]
+            ops += [["start"], ["stop"], ["clear"]]
             ops += [["release", t] for t in sorted(self.gated) if t not in self.released]
         ops += [["enq", t] for t in range(1, getattr(self, "base_nt", self.nt) + 1) if self.ts[t - 1] == "new" and t not in self.claimed]
         return ops
@@ -385,7 +387,8 @@ def replay_behaviour(beh, limit=400):
         ok = False
         while True:
             new = [e for e in S.events[n0:] if e["thr"] == who]
-            real = [e for e in new if e["k"] not in STUTTER or (e["k"] == "ret" and "ret" in ends)]
+            real = [e for e in new if (e["k"] not in STUTTER or (e["k"] == "ret" and "ret" in ends))
+                    and not (pc == "p8" and e["k"] == "join_test" and e["st"]["unfinished"] != 0)]
             if real:
                 ok = real[-1]["k"] in ends and len(real) == 1
                 if not ok:
